@@ -26,6 +26,8 @@ from mxlpy.symbolic import to_symbolic_model
 from mxlpy.types import IntegrationFailure, Result
 
 if TYPE_CHECKING:
+    from collections.abc import Callable
+
     from mxlpy.integrators import IntegratorProtocol, IntegratorType
     from mxlpy.model import Model
     from mxlpy.types import ArrayLike
@@ -131,8 +133,17 @@ class Simulator:
                 _LOGGER.warning(str(e), stacklevel=2)
 
         y0 = self.y0
+        rhs: Callable = self.model
+        if (shift := self._time_shift) is not None:
+            # The integrator restarts at 0 after a variable update, but
+            # time-dependent models have to see the absolute time
+            model = self.model
+            rhs = lambda t, y: model(t + shift, y)  # noqa: E731
+            if (_jac_fn_rel := jac_fn) is not None:
+                jac_fn = lambda t, x: _jac_fn_rel(t + shift, x)  # noqa: E731
+
         self.integrator = self._integrator_type(
-            self.model,
+            rhs,
             tuple(y0[k] for k in self.model.get_variable_names()),
             jac_fn,
         )
